@@ -9,9 +9,10 @@ Driver ops for M11 (C17, C18).
 
 `fmt_check (text wrap s:H) (text spans s:H) (text indent s:H) (text blanks s:H) (text spacing s:H)
            (text final s:H) (line_edits (le L N)…) (span_edits (se S E s:H)…) (toplevel L…)
-           (marks_wrap (sp S E)…) (marks_spans (sp S E)…)`
+           (marks_wrap (sp S E)…) (marks_spans (sp S E)…) (marks_indent (sp S E)…)`
     → `OK (spans eq|ne|panic) (spans_in_gaps B) (indent eq|ne) (edits_in_gaps B) (bad_lines L…)
-          (blanks eq|ne) (final eq|ne)`
+          (blanks eq|eqfix|ne) (final eq|ne)`   (`eqfix`: matches the phase-6 model with the repair
+          format-fix-blank-lines-inside-string, marks from the lexer's spans of the `indent` text)
     Phase models run on the real intermediate texts and edit lists (`fmt_trace`), marks from the
     real lexer's spans of the phase's input text.
 
@@ -148,8 +149,10 @@ def fmtCheck (rest : String) : String :=
       let ls := rawLines mspans
       let bad := badLines les ls.length 0 ls
       let nb := normalizeBlankLines (plain indent) tl
+      let nbFix := normalizeBlankLinesSkip (markSpans indent (spansOf (findList items "marks_indent"))) tl
+      let blanksRes := if bytes nb == blanks then "eq" else if bytes nbFix == blanks then "eqfix" else "ne"
       let fin := finalNewline (plain spacing)
-      s!"OK (spans {spansRes}) (spans_in_gaps {spansGaps}) (indent {eqs (bytes ind) indent}) (edits_in_gaps {editsInGaps mspans les}) (bad_lines{String.join (bad.map (fun n => s!" {n}"))}) (blanks {eqs (bytes nb) blanks}) (final {eqs (bytes fin) final})"
+      s!"OK (spans {spansRes}) (spans_in_gaps {spansGaps}) (indent {eqs (bytes ind) indent}) (edits_in_gaps {editsInGaps mspans les}) (bad_lines{String.join (bad.map (fun n => s!" {n}"))}) (blanks {blanksRes}) (final {eqs (bytes fin) final})"
     | _, _, _, _, _, _ => "ERR missing text"
 
 def handle (op : String) (rest : String) : Option String :=
